@@ -80,14 +80,23 @@ class Interp:
                     pending=ex._pending_work_items, running=ex._running_work_items,
                     wref=weakref.ref(ex), executor_id=getattr(ex, "executor_id", None),
                     ident=id(ex), mgr=None, n=len(self.obs.executors), max_workers=ex._max_workers,
-                    pids_at_return=sorted(ex._processes))
+                    pids_at_return=sorted(ex._processes),
+                    base=ex._max_workers, inflight=[], all_pids=set())
         return info
 
     def _touch(self, ex):
         """remember the manager thread object once it exists."""
         for info in self.obs.executors.values():
-            if info["wref"]() is ex and info["mgr"] is None:
-                info["mgr"] = ex._executor_manager_thread
+            if info["wref"]() is ex:
+                if info["mgr"] is None:
+                    info["mgr"] = ex._executor_manager_thread
+                info["all_pids"].update(ex._processes)
+                return info
+
+    def _info_of(self, ex):
+        for info in self.obs.executors.values():
+            if info["wref"]() is ex:
+                return info
 
     def _kwargs(self, kw):
         out = {}
@@ -123,10 +132,20 @@ class Interp:
         kw = self._kwargs(o.get("kw", {}))
         prev = re_mod._executor
         prev_state = None
+        pinfo = self._info_of(prev) if prev is not None else None
+        req = kw.get("max_workers")
+        if pinfo is not None and req is not None:
+            pinfo["inflight"].append(req)
         if prev is not None:
             prev_state = dict(ident=id(prev), id=prev.executor_id, broken=prev._flags.broken is not None,
                               shutdown=prev._flags.shutdown, max_workers=prev._max_workers)
-        ex = get_reusable_executor(**kw)
+        try:
+            ex = get_reusable_executor(**kw)
+        finally:
+            if pinfo is not None and req is not None:
+                pinfo["inflight"].remove(req)
+                cur_mw = prev._max_workers
+                pinfo["base"] = cur_mw if not pinfo["inflight"] else max(pinfo["base"], cur_mw)
         k = rt.RT.kernel
         known = None
         for info in self.obs.executors.values():
@@ -182,6 +201,7 @@ class Interp:
         for n, info in self.obs.executors.items():
             if info["wref"]() is ex:
                 rec["exn"] = n
+        ts["exn"] = rec["exn"]
         self.obs.futures[o["f"]] = rec
         if ts.get("kind") == "retmarked":
             f = ex.submit(ret_marked, ts, *extra)
@@ -273,17 +293,35 @@ class Interp:
         ex = self.slots.get(o["ex"])
         if ex is None:
             return {"skipped": True}
-        self._touch(ex)
+        info = self._touch(ex)
+        k = rt.RT.kernel
+        t0 = rt.RT.sched.now
         ex.shutdown(wait=o.get("wait", True), kill_workers=o.get("kill", False))
-        return {}
+        return self._after_shutdown(info, t0)
+
+    def _after_shutdown(self, info, t0):
+        k = rt.RT.kernel
+        if info is None:
+            return {}
+        mgr = info["mgr"]
+        pids = sorted(info["all_pids"])
+        desc = []
+        for pid in pids:
+            desc.extend(c.pid for c in k.descendants_by_origin(pid))
+        return dict(dt=round(rt.RT.sched.now - t0, 6), mgr_alive=bool(mgr is not None and mgr.is_alive()),
+                    workers_alive=[p for p in pids if k.procs[p].alive],
+                    desc_alive=[p for p in desc if k.procs[p].alive],
+                    zombies=[p for p in pids if not k.procs[p].alive and not k.procs[p].reaped],
+                    exn=info["n"])
 
     def op_with(self, th, o):
         ex = self.slots.get(o["ex"])
         if ex is None:
             return {"skipped": True}
-        self._touch(ex)
+        info = self._touch(ex)
+        t0 = rt.RT.sched.now
         ex.__exit__(None, None, None)
-        return {}
+        return self._after_shutdown(info, t0)
 
     def op_del(self, th, o):
         ex = self.slots.pop(o["ex"], None)
@@ -337,6 +375,15 @@ class Interp:
             fid="late", task=dict(id=o.get("id", -1), kind="work"), ex=o["ex"], thread=th, args=[],
             fut=f, submitted=True, cancel=None, exn=None, pickler_at_submit=None)
         return {"accepted": True}
+
+    def op_check_idle(self, th, o):
+        """bookkeeping of an executor when all futures handed out are done."""
+        ex = self.slots.get(o["ex"])
+        if ex is None or ex._call_queue is None:
+            return {"skipped": True}
+        q = ex._call_queue
+        return dict(pending=len(ex._pending_work_items), sem=q._sem._semlock._get_value(), maxsize=q._maxsize,
+                    broken=ex._flags.broken is not None)
 
     def op_snapshot(self, th, o):
         k = rt.RT.kernel
@@ -404,10 +451,10 @@ class Interp:
                 if name == "raise":
                     self.obs.event(thread=th, i=i, op=name, phase="exc", r={"e": "uncaught"})
                     raise
-                self.obs.event(thread=th, i=i, op=name, phase="exc", r={"e": exc_summary(e)})
+                self.obs.event(thread=th, i=i, op=name, phase="exc", r={"e": exc_summary(e)}, o=o)
                 continue
             cur.api = None
-            self.obs.event(thread=th, i=i, op=name, phase="ret", r=r)
+            self.obs.event(thread=th, i=i, op=name, phase="ret", r=r, o=o)
 
     def op_start_users(self, th, o):
         if self.user_threads:
